@@ -71,6 +71,10 @@ CLAIMED = {
             "declaration memory poisoned and freed right after cfg_init for generated schemas, later instance creation / defaults / print checked against the language model under ASan; all interleavings (<= 6 steps) of two operation lists on two contexts and on two sibling section instances compared with their solo runs",
             "Stale reads are visible through ASan and the 0xA5 overwrite; function pointers are not declaration memory.",
             "property-based testing (Hypothesis schemas) with use-after-free oracle + exhaustive interleaving enumeration, differential against solo runs"),
+    "C17": ("exploration", "5.C17",
+            "exhaustive placements (3^4) x search-path sequences x name forms against a file/passwd model; cfg_parse vs include resolution; two heap-fill patterns for uninitialised-memory dependence",
+            "Home directories from Python's pwd; uninitialised reads only through the two-fill differential and ASan interceptors.",
+            "exhaustive bounded enumeration of fixture layouts, reference file model, two-fill differential"),
 }
 PENDING = {}
 props = [json.loads(l) for l in open(os.path.join(V, "properties.jsonl"))]
